@@ -570,3 +570,250 @@ def float_ext(R: Run, H):
             enclosing_world_oracle(R, H, base, region, r, SL, "float|" + nm, flt=True)
         except Exception as e:  # pylint: disable=broad-except
             R.oracle(False, "enclosing-raises", {"g": H.gb_dict(base), "bbox": list(region.bbox)}, f"raised {e!r}")
+
+
+# ---------------------------------------------------------------------------------------------------------------------
+# growth round 3
+def make_gcp_box(H, notes):
+    """a small non-linear GCPGeoBox built through the public constructor; None (with a note) when that is not possible"""
+    try:
+        from odc.geo import xy_
+        from odc.geo.gcp import GCPGeoBox, GCPMapping
+
+        pix = [xy_(p) for p in [(0, 0), (10, 0), (10, 10), (0, 10), (5, 5)]]
+        wld = [xy_(p) for p in [(100, 200), (120, 201), (121, 180), (99, 181), (110, 190)]]
+        return GCPGeoBox((10, 10), GCPMapping(pix, wld, H.crs_of("1")))
+    except Exception as e:  # pylint: disable=broad-except
+        notes.append(f"GCPGeoBox could not be constructed through the public API ({e!r}); non-linear operand stream skipped")
+        return None
+
+
+def perimeter_ok(bb, pts, n):
+    """pts (exact Fractions) walk the perimeter of bb: closed, every point on an edge, the corners present, 4(n-1)+1
+    points for n >= 2"""
+    l, b, r, t = bb_fr(bb)
+    lo_x, hi_x, lo_y, hi_y = min(l, r), max(l, r), min(b, t), max(b, t)
+    if n >= 2 and len(pts) != 4 * (n - 1) + 1:
+        return False, f"{len(pts)} points for pts_per_side={n}"
+    if pts[0] != pts[-1]:
+        return False, "not closed"
+    for x, y in pts:
+        on_edge = (x in (l, r) and lo_y <= y <= hi_y) or (y in (b, t) and lo_x <= x <= hi_x)
+        if not on_edge:
+            return False, f"point ({float(x)}, {float(y)}) is not on the perimeter"
+    if n >= 2 and not {(l, b), (r, b), (r, t), (l, t)} <= set(pts):
+        return False, "a corner is missing"
+    return True, ""
+
+
+def run_ext3(R: Run, H, bases, stats):
+    import numpy as np
+    import shapely
+    from affine import Affine
+    from odc.geo import geom as GM
+    from odc.geo.geobox import GeoBox
+    from odc.geo.geom import BoundingBox, Geometry
+
+    rng = R.rng
+    real = H.real
+    exact_bases = [b_ for b_ in bases if b_[2]]
+    g1 = GeoBox((3, 4), Affine(2.0, 0.0, 10.0, 0.0, -2.0, 20.0), H.crs_of("1"))
+    gN = GeoBox((3, 4), Affine(2.0, 0.0, 10.0, 0.0, -2.0, 20.0), None)
+    gD = GeoBox((3, 4), Affine(2.0, 2.0, 10.0, 1.0, 1.0, 20.0), H.crs_of("1"))   # det = 0
+    gR = GeoBox((5, 2), Affine(0.0, -4.0, 8.0, 4.0, 0.0, -16.0), H.crs_of("3"))
+
+    # ------------------------------------------------------------ Y1. empty geometries (and the non-empty branch of the
+    # same model functions)
+    empties = [("Polygon", shapely.Polygon), ("Point", shapely.Point), ("MultiPoint", shapely.MultiPoint),
+               ("LineString", shapely.LineString), ("MultiPolygon", shapely.MultiPolygon),
+               ("GeometryCollection", shapely.GeometryCollection)]
+    for g, gn in ((g1, "crs"), (gN, "nocrs"), (gD, "det0"), (gR, "rot")):
+        for rtag in ("N", "1", "2", "3"):
+            for kind, mk in empties:
+                e = Geometry(mk(), H.crs_of(rtag))
+                rel = "none" if rtag == "N" else "same" if H.tag_of(g.crs) == rtag else "other"
+                R.corr(f"c16 projl {H.enc_gbox(g)} {rtag} [] []",
+                       real(lambda: (lambda o: f"{H.tag_of(o.crs)} {enc_pts(coords_of(o))}")(g.project(e))),
+                       sig=f"projl|empty|g={gn}|region-crs={rel}|{kind}")
+                def fee():
+                    o_ = real(lambda: H.enc_gbox(g.enclosing(e)))()
+                    return o_
+                out = R.corr(f"c16 enclgl {H.enc_gbox(g)} {rtag} [] []",
+                             lambda: (lambda o_: "ERR:any" if o_.startswith("ERR") else o_)(guarded(fee)),
+                             sig=f"enclgl|empty|g={gn}|region-crs={rel}|{kind}")
+                R.oracle(out.startswith("ERR"), "enclosing-empty-not-rejected",
+                         {"op": "encl-empty", "g": H.gb_dict(g), "kind": kind, "crs": rtag},
+                         f"enclosing of an empty {kind} returned {out[:80]}", sig="encl-empty")
+    for it in range(R.pick(60, 600)):
+        nm, B, ex = rng.choice(exact_bases)
+        g = H.member(B, rng.randint(-5, 5), rng.randint(-5, 5), rng.randint(1, 9), rng.randint(1, 9), "1")
+        if g is None:
+            continue
+        pix = [(Fr(rng.randint(-40, 40), 4), Fr(rng.randint(-40, 40), 4)) for _ in range(rng.randint(1, 4))]
+        pts = [H.fa_apply(H.fa(g.affine), q) for q in pix]
+        if any(H.fa_exact_floats(q) is None for q in pts):
+            continue
+        pts = [(float(x), float(y)) for x, y in pts]
+        geom = GM.multipoint(pts, g.crs)
+        cin = coords_of(geom)
+        R.corr(f"c16 projl {H.enc_gbox(g)} 1 {enc_pts(cin)} []",
+               real(lambda: (lambda o: f"{H.tag_of(o.crs)} {enc_pts(coords_of(o))}")(g.project(geom))), sig="projl|points")
+        R.corr(f"c16 enclgl {H.enc_gbox(g)} 1 {enc_pts(cin)} []", real(lambda: H.enc_gbox(g.enclosing(geom))),
+               sig="enclgl|points")
+
+    # ------------------------------------------------------------ Y2. BoundingBox.to_crs (pyproj as a table, exact)
+    areas = {"eu": ((12.5, 15.0), (44.0, 52.0), "12345"), "au": ((115.0, 150.0), (-40.0, -12.0), "1256")}
+    pairs = [(s_, d_, ar, False) for ar, (_lo, _la, tags) in areas.items() for s_ in tags for d_ in tags if s_ != d_]
+    pairs += [(t_, t_, "au" if t_ == "6" else "eu", True) for t_ in "123456"] + [(t_, t_, "eu", False) for t_ in "123"]
+    pairs += [("N", "1", "eu", False), ("N", "4", "eu", False)]
+    rng.shuffle(pairs)
+    ll = H.crs_of("2")
+    for it in range(R.pick(200, 2000)):
+        src, dst, ar, alt = pairs[it % len(pairs)]
+        lon, lat = rng.uniform(*areas[ar][0]), rng.uniform(*areas[ar][1])
+        src_crs = None if src == "N" else (H.crs_alt(src, it) if alt else H.crs_of(src))
+        dst_crs = H.crs_of(dst)
+        c = (lon, lat) if src in ("2", "N") else fresh_reproject(ll, src_crs, [(lon, lat)])[0]
+        ext = rng.uniform(0.0005, 0.2) if src in ("2", "N") else rng.uniform(50, 20000)
+        v = [c[0] + rng.uniform(-1, 1) * ext for _ in range(2)] + [c[1] + rng.uniform(-1, 1) * ext for _ in range(2)]
+        if rng.random() < 0.8:   # proper box; otherwise possibly inverted
+            v = sorted(v[:2]) + sorted(v[2:])
+        bb = BoundingBox(v[0], v[2], v[1], v[3], src_crs)
+        ring = region_input_pts(bb)
+        same = src == dst
+        try:
+            dstp = ring if (same or src == "N") else fresh_reproject(src_crs, dst_crs, ring)
+        except Exception:  # pylint: disable=broad-except
+            continue
+        if not all(math.isfinite(x) for q in dstp for x in q):
+            continue
+        table = "[]" if (same or src == "N") else enc_table(ring, dstp)
+        res = []
+
+        def ft():
+            o = bb.to_crs(dst_crs)
+            res.append(o)
+            return H.enc_bb(o)
+
+        sg = "nocrs" if src == "N" else "respelled" if alt else "same" if same else "xcrs"
+        inv = "inverted" if (v[0] > v[1] or v[2] > v[3]) else "proper"
+        R.corr(f"c16 bbtocrs {H.enc_bb(bb)} {dst} {table}", real(ft),
+               sig=f"bbtocrs|{sg}|{inv}|{H.CRS_NAME[src]}>{H.CRS_NAME[dst]}")
+        if res:   # independent: exactly the bounds of the fresh pyproj images of the four corners
+            want = (min(q[0] for q in dstp), min(q[1] for q in dstp), max(q[0] for q in dstp), max(q[1] for q in dstp))
+            R.oracle(tuple(map(float, res[0].bbox)) == want and res[0].crs == dst_crs, "bbox-to-crs-corner-bounds",
+                     {"bb": [float(x) for x in bb.bbox], "src": None if src_crs is None else str(src_crs), "dst": str(dst_crs)},
+                     f"{bb!r}.to_crs = {res[0]!r}, corner images span {want}", sig="bbtocrs|" + sg)
+
+    # ------------------------------------------------------------ Y3. BoundingBox.boundary
+    for it in range(R.pick(150, 1500)):
+        big = (not R.quick) and it % 5 == 0
+        sc = 2 ** rng.randint(8, 18) if big else 1
+        v = [rng.randint(-80, 80) / 8 * sc for _ in range(4)]
+        if rng.random() < 0.85:
+            v = sorted(v[:2]) + sorted(v[2:])
+        bb = BoundingBox(v[0], v[2], v[1], v[3], H.crs_of(rng.choice(["N", "1"])))
+        n = rng.choice([0, 1, 2, 2, 3, 5, 9, 17]) if it % 7 else rng.choice([4, 6, 7, 16])
+        res = []
+
+        def fb():
+            o = bb.boundary(n)
+            res.append(o)
+            return enc_pts(coords_of(o))
+
+        # expected coordinates must be float32 numbers for the tie to be exact (the code rounds linspace to float32)
+        exact = True
+        if n >= 2:
+            for a_, b_ in ((v[0], v[1]), (v[2], v[3])):
+                for i_ in range(n):
+                    w_ = Fr(a_) + i_ * (Fr(b_) - Fr(a_)) / (n - 1)
+                    exact = exact and Fr(float(np.float32(float(w_)))) == w_
+        else:
+            exact = all(Fr(float(np.float32(x))) == Fr(x) for x in v)
+        if exact:
+            R.corr(f"c16 bbboundary {H.enc_bb(bb)} {n}", fb, sig=f"bbboundary|n={n}" + ("|big" if big else ""))
+        else:
+            guarded(fb)
+            stats["inexact-skipped"] += 1
+        if res and n >= 1:
+            pts = [(Fr(x), Fr(y)) for x, y in coords_of(res[0])]
+            if exact:
+                ok, what = perimeter_ok(bb, pts, n)
+            else:   # float32 rounding: within 1e-6 relative of the box
+                l_, b_, r_, t_ = (float(x) for x in bb.bbox)
+                tol_ = 1e-6 * max(1.0, abs(l_), abs(r_), abs(b_), abs(t_))
+                ok = all(min(l_, r_) - tol_ <= float(x) <= max(l_, r_) + tol_ and min(b_, t_) - tol_ <= float(y) <= max(b_, t_) + tol_
+                         for x, y in pts) and pts[0] == pts[-1]
+                what = "a boundary point lies outside the box"
+            R.oracle(ok and res[0].crs == bb.crs, "bbox-boundary-on-perimeter", {"bb": [float(x) for x in bb.bbox], "n": n},
+                     f"{bb!r}.boundary({n}): {what}", sig="bbboundary|" + ("exact" if exact else "float32"))
+
+    # ------------------------------------------------------------ Y4. non-linear (GCP) operands: always refused
+    gg = make_gcp_box(H, R.notes)
+    if gg is not None:
+        classes = set()
+        lin = [g1, H.member(exact_bases[0][1], 1, 2, 3, 3), gR, gD, gN]
+        # the linear grids a silent approximation would be COMPATIBLE with: the GCP box's own affine approximation and
+        # whole-pixel shifts of it (with these an "approximate through .approx" shortcut succeeds instead of refusing)
+        try:
+            ap = gg.approx
+            lin += [ap, GeoBox((4, 7), ap.affine * Affine.translation(3, -2), ap.crs)]
+        except Exception as e:  # pylint: disable=broad-except
+            R.notes.append(f"GCPGeoBox.approx not available ({e!r}); compatible-approximation operands skipped")
+        for a, b in [(x, gg) for x in lin] + [(gg, x) for x in lin] + [(gg, gg)]:
+            ea, eb = ("GCP" if x is gg else H.enc_gbox(x) for x in (a, b))
+            for which, f in (("or", lambda: a | b), ("and", lambda: a & b),
+                             ("roi", lambda: getattr(a, "overlap_roi")(b)), ("snap", lambda: getattr(a, "snap_to")(b))):
+                def fr():
+                    try:
+                        o = f()
+                    except Exception as e_:  # pylint: disable=broad-except
+                        # refused: no `.affine`, no operator, or a CRS / invertibility test that happens to come first
+                        # (which of them is a matter of internal step order, not judged)
+                        classes.add(type(e_).__name__)
+                        return "REFUSED"
+                    return H.enc_roi(o) if which == "roi" else H.enc_gbox(o)
+
+                out = R.corr(f"c16 opd {which} {ea} {eb}", real(fr),
+                             sig=f"opd|{which}|{'gcp' if a is gg else 'lin'}-{'gcp' if b is gg else 'lin'}")
+                R.oracle(out == "REFUSED", "nonlinear-operand-not-refused",
+                         {"op": which, "a": ea, "b": eb}, f"{which} with a GCPGeoBox operand returned {out[:80]}", sig="opd|refused")
+        for which, a, b in (("or", g1, lin[0]), ("and", g1, lin[0]), ("roi", g1, lin[0]), ("snap", g1, lin[0])):
+            R.corr(f"c16 opd {which} {H.enc_gbox(a)} {H.enc_gbox(b)}",
+                   real(lambda: H.enc_roi(a.overlap_roi(b)) if which == "roi" else H.enc_gbox(
+                       (a | b) if which == "or" else (a & b) if which == "and" else a.snap_to(b))), sig=f"opd|{which}|lin-lin")
+        for fn_name in ("geobox_union_conservative", "geobox_intersection_conservative"):
+            from odc.geo import geobox as GBm
+
+            out = guarded(lambda: str(getattr(GBm, fn_name)([g1, gg])))
+            R.oracle(out.startswith("ERR"), "nonlinear-operand-not-refused", {"op": fn_name}, f"{fn_name}([linear, gcp]) returned {out[:80]}",
+                     sig="opd|refused")
+        R.notes.append(f"set operations with a GCPGeoBox operand are refused with {sorted(classes)}")
+
+    # ------------------------------------------------------------ Y5. large shapes / threshold offsets for the round-2 ops
+    POW = [2**31, 2**40 + 2**20, 2**52, 2**60]
+    eps_t = [1e-8, math.nextafter(1e-8, 0), math.nextafter(1e-8, 1), 0.5, 0.5 + 2.0**-30, 0.5 - 2.0**-30, 2.0**-40, 1 - 2.0**-30]
+    for it in range(R.pick(60, 1200)):
+        k = rng.randint(-3, 4)
+        sgn = rng.choice([(1, -1), (1, 1), (-1, -1)])
+        s_ = 2.0 ** k
+        ny, nx = (rng.choice(POW) if rng.random() < 0.6 else rng.randint(0, 9) for _ in range(2))
+        off = (0.0, 0.0) if max(ny, nx) > 9 else (float(rng.randint(-64, 64)), float(rng.randint(-64, 64)))   # keep a*n + c exact
+        A = Affine(sgn[0] * s_, 0.0, off[0], 0.0, sgn[1] * s_, off[1])
+        g = GeoBox((ny, nx), A, H.crs_of("1"))
+        R.corr(f"c16 gbbox {H.enc_gbox(g)}", real(lambda: H.enc_bb(g.boundingbox)), sig="gbbox|huge-shape")
+        R.corr(f"c16 gextent {H.enc_gbox(g)}", real(lambda: enc_pts(coords_of(g.extent))), sig="gextent|huge-shape")
+        tx = rng.randint(-9, 9) + rng.choice([1, -1]) * rng.choice(eps_t)
+        ty = rng.choice([0.0, float(rng.choice(POW)), -3.0])
+        want = H.fa_mul(H.fa(A), H.fa_T(Fr(tx), Fr(ty)))
+        got = guarded(lambda: H.enc_gbox(g.translate_pix(tx, ty)))
+        if H.fa_exact_floats(want) is not None and not got.startswith("ERR") and got.split(":")[2] == H.enc_aff(want):
+            R.corr(f"c16 tpix {H.enc_gbox(g)} {frac_s(tx)} {frac_s(ty)}", real(lambda: H.enc_gbox(g.translate_pix(tx, ty))),
+                   sig="tpix|threshold-offset")
+        else:
+            stats["inexact-skipped"] += 1
+        # far-away region through the entry point (power-of-two grid anchored at the origin: wld2pix exact)
+        g0 = GeoBox((rng.randint(1, 9), rng.randint(1, 9)), Affine(sgn[0] * s_, 0.0, 0.0, 0.0, sgn[1] * s_, 0.0), H.crs_of("1"))
+        far = rng.choice([2.0**30, -(2.0**34), 2.0**40]) * s_
+        bb = BoundingBox(far + rng.randint(0, 7) / 4 * s_, far - 3.5 * s_, far + (9 + rng.randint(0, 3) / 2) * s_, far + 0.25 * s_, H.crs_of("1"))
+        R.corr(f"c16 enclr {H.enc_gbox(g0)} {enc_region(H, bb)} []", real(lambda: H.enc_gbox(g0.enclosing(bb))), sig="enclr|far-away")
